@@ -69,6 +69,20 @@ FIRST_RUN_MISSED = {  # seeded changes the checks did NOT catch when first confr
     "C16-9": "never two references nodes under one parent",
     "C16-10": "no duplicated id carried by a referencing element itself",
     "C18-9": "insertion order of attributes was declared unspecified; since attributes / extras / nsmap are mappings, equal mappings in another order must compare equal",
+    "C04-11": "validate.node / validate.tree build a fresh Rule per call; C04 now also drives one Rule object through repeated validations (C01 caught it)",
+    "C06-11": "prefixes were only declared top-down after assembly; a node may now declare its own before it is attached (own prefixes listed first). This also exposed defect F23 in the unchanged code",
+    "C06-12": "attributes were always stored before extras; trees holding the same key in both are now also built extras-first",
+    "C07-11": "no U+2028 / U+2029 / U+0085 (and other non-XML whitespace) inside text values",
+    "C07-12": "markup-looking text other than the para tag was missing from the EML exporter's words",
+    "C09-11": "queries ran on freshly replayed objects only; every transition is now bracketed by the queries on the same objects (query, edit, query)",
+    "C10-11": "the clause 'what single-node validation allows, whole-tree validation can accept' was only checked through the tables; every element now gets a foreign child and node/tree verdicts are compared",
+    "C10-12": "exit 1 without a VIOLATION line: a min>max bound crashed the automaton builder; malformed rules are now reported and the model phases skipped",
+    "C11-11": "path queries used only name pairs from the first four names; the paths that exist below each node are now queried, and a base with leaf-first repeated siblings was added",
+    "C12-11": "no whitespace-only / empty / '0' values in copied trees",
+    "C12-12": "exit 2: a copy with a different shape crashed the independence loop; now reported as copy_not_equal (and shared objects between copies are checked)",
+    "C16-12": "ids were only placed on parties and their descendants; whole documents with ids on the root, the dataset and inside additionalMetadata/metadata were added",
+    "C17-12": "rules that declare no children were skipped, and only one foreign name was offered; every rule now refuses every known name it does not list",
+    "C20-11": "document text never contained escaped markup characters (&lt; &amp; ...)",
 }
 NOT_DETECTED_BY_DESIGN = {"C19-5", "C09-8"}
 ids = sys.argv[1:] or sorted(os.listdir(os.path.join(HERE, "seeded")))
